@@ -25,23 +25,43 @@ RULE = ("(template, substrate, direction, strategy, hydrogen mode) with template
         "hand-made rule, or a synthetic ITS graph planted on a random host; non-trivial = at least one glued result and a "
         "template with >= 2 changed bonds; distinct = distinct (template, substrate, configuration)")
 EXHAUSTIVE = {"quick": False, "thorough": False}
-EXPLANATION = ("Theorems about the Gallina model of SynRule.__init__/_strip_explicit_h, SynReactor._glue_graph/_node_glue/"
-               "_explicit_h/_invert_template: substrate side of every glued ITS is the substrate, hydrogen and charge balance, "
-               "changed bonds = image of the template's, additive branch exact, backward direction, explicit-hydrogen bookkeeping. "
-               "Correspondence: every intermediate graph compared before RDKit serialisation.")
+EXPLANATION = ("17 theorems (coq/props/C03.v) about the Gallina model of SynReactor._glue_graph/_node_glue, _invert_template, _explicit_h, "
+               "h_to_explicit and SynRule.__init__(implicit_h=False): for every host, rule and valid match the reactant side of the glued ITS "
+               "(on its_decompose, what _to_smarts serialises) is the substrate; element counts incl. hydrogen and total charge agree on both "
+               "sides for a balanced rule (and differ by exactly the rule's imbalance otherwise); changed bonds = image of the rule's bonds with "
+               "equal order changes, matched atoms carry the rule atom's element / hydrogen change / charges, nothing else changes; the additive "
+               "branch exactly, and 'no ITS' iff a formed bond lands on a host bond with a non-integral sum; backward direction; explicit-hydrogen "
+               "stage and hydrogen expansion keep all counts and all bonds between substrate atoms. "
+               "Correspondence: every intermediate graph compared before RDKit serialisation; the theorems' boolean hypotheses (wf_hostb, wf_rcb, "
+               "match_rcb) are evaluated by run_c03 on every glued (re)mapping and must come out true.")
+DESIGN_REF = "DESIGN.md section 5 C03; notes/C03.md"
+TECHNIQUE = "Coq proof over an executable Gallina model + per-run correspondence (vm_compute digest vs implementation) + independent Python oracle"
 TRUSTED_BASE = [
     "Coq 8.16.1 kernel + vm_compute (no native_compute)",
     "hand-written model coq/model/C03_Model.v tied to synkit/Synthesis/Reactor/syn_reactor.py, synkit/Rule/syn_rule.py, "
     "synkit/Graph/Hyrogen/_misc.py (standardize_hydrogen, h_to_implicit, h_to_explicit), its_decompose / ITSConstruction by the per-run correspondence",
+    "statement vocabulary coq/proof/C03_Spec.v (bondG, dH, dQ, sumZ, balancedb, count_el, total_hc, total_charge, elem_count, mol_of_host): plain definitions, to be read with the theorems",
     "harness encoders harness/gen/c03_common.py (nx graphs -> Gallina literals; attributes -> tok)",
-    "oracle inputs: RDKit SMILES parsing of substrate / template, networkx VF2 enumeration (the mappings handed to the model are the implementation's)",
+    "oracle inputs: RDKit SMILES parsing of substrate / template, networkx VF2 enumeration (the mappings handed to the model are the implementation's; "
+    "each is re-validated by match_okb / match_rcb inside run_c03)",
     "networkx Graph semantics (attribute dicts per unordered pair), CPython round() = round-half-to-even",
 ]
 ASSUMPTIONS = ["templates have typesGH 5-tuples on every node, no wildcard '*' atoms (partial-matching engine is outside C03)",
                "bond orders are multiples of 0.5", "node ids are non-negative ints",
-               "hydrogen mode matches how the template is written (default/explicit_h=False modes need hydrogen changes written with explicit H atoms)"]
-TESTED_NOT_PROVED = ["serialisation half: _to_smarts / graph_to_smi (RDKit) — returned strings re-parsed and compared with the substrate and for balance (oracle only)",
-                     "re-matching of the explicit-hydrogen pattern (_get_explicit_map -> VF2): every re-match is checked by match_okb in the correspondence, not proved complete"]
+               "hydrogen mode matches how the template is written (default/explicit_h=False modes need hydrogen changes written with explicit H atoms)",
+               "theorem hypotheses wf_hostb / wf_rcb / match_rcb (distinct node ids, one edge entry per unordered pair, no loops, host orders > 0, "
+               "rule orders >= 0; the match is injective, total on the rule's atoms, element/charge equal, host hcount >= rule hcount, reactant-side "
+               "orders equal) — true on every correspondence case (recomputed by the model, compared with constant 1)"]
+TESTED_NOT_PROVED = ["serialisation half: _to_smarts / graph_to_smi (RDKit) — returned strings re-parsed and compared with the substrate and for balance (oracle only); "
+                     "results silently dropped by RDKit are counted by the oracle",
+                     "rule preparation in the default mode (standardize_hydrogen + _strip_explicit_h + typesGH refresh): modelled and compared on every case "
+                     "(rc / left / right after stripping), no theorem relates the stripped rc to the written template; proved only for implicit-template "
+                     "mode (C03_synrule_implicit: the rule glued is the template itself)",
+                     "re-matching of the explicit-hydrogen pattern (_get_explicit_map -> VF2): every re-match is checked by match_okb / match_rcb in the "
+                     "correspondence, not proved valid or complete (premise of C03_explicit_path)",
+                     "_explicit_h: which template hydrogen each new H atom stands for (first-fit pairing inside an h_pairs component) — only the counts, "
+                     "the untouched old bonds and the shape of the new atoms are covered (C03_explicitH_partial + correspondence)",
+                     "matching itself (SubgraphSearchEngine, orbit de-duplication): C06 / C05"]
 
 HAND = [
     # name, reaction SMILES, substrates
@@ -311,7 +331,7 @@ def nontrivial(case, obs):
     if not isinstance(obs, list) or len(obs) < 4 or obs[0] == "SKIP":
         return False
     calls = obs[3]
-    nres = sum(len(c[4]) for c in calls)
+    nres = sum(1 for c in calls for g in c[4] if g)
     pre = case.get("pre") or {}
     changed = sum(1 for e in (pre.get("tpl") or [[], []])[1] if e[2] != e[3])
     return nres >= 1 and changed >= 2
@@ -336,7 +356,11 @@ def distribution(cases, obss):
         if o[1]:
             d["explicit_path"] += 1
         for cl in calls:
-            for g in cl[4]:
+            for gg in cl[4]:
+                if not gg:
+                    d["no_its_nonintegral_sum"] = d.get("no_its_nonintegral_sum", 0) + 1
+                    continue
+                g = gg[0]
                 d["results"] += 1
                 d["branch_absent"] += g[1][0]
                 d["branch_additive"] += g[1][1]
@@ -526,13 +550,20 @@ def gen_cases(tier, rng):
     return prepare_all(cases)
 
 
-LEVEL_TEXT = ("Machine-checked proof (Coq) over an executable model of rule preparation (SynRule: hydrogen standardisation, ITS decomposition, "
-              "explicit-hydrogen stripping) and of gluing a rule onto a substrate along a match (SynReactor._glue_graph/_node_glue, "
-              "_explicit_h, _invert_template): for every host, rule and valid match the reactant side of the glued ITS is the substrate, "
-              "hydrogen and charge totals change exactly as in the rule (zero for balanced rules), the changed bonds are the image of the "
-              "rule's changed bonds with equal order changes and every other bond is untouched, also for the backward direction; the "
-              "explicit-hydrogen stage preserves the hydrogen count of every atom. The model is tied to the Python code by comparing every "
-              "intermediate graph (before RDKit serialisation) on corpus, hand-made and synthetic (template, substrate) pairs on every run.")
-LEVEL_NOTE = ("Trusted: Coq kernel + vm_compute; the hand-written model and the harness encoders; RDKit parsing and VF2 matching are oracle "
-              "inputs (every mapping used is re-validated by the model's match_okb). Modelled, not verified: serialisation through RDKit "
-              "(_to_smarts) — returned strings are only re-parsed and compared by the oracle; the re-matching of explicit-hydrogen patterns.")
+LEVEL_TEXT = ("Machine-checked proof (Coq, 17 theorems, all closed under the global context) over an executable model of gluing a rule onto a "
+              "substrate along a match (SynReactor._glue_graph/_node_glue), _invert_template, _explicit_h, h_to_explicit and SynRule.__init__ in "
+              "implicit-template mode: for EVERY substrate graph, rule graph and valid match (boolean hypotheses wf_hostb, wf_rcb, match_rcb) "
+              "(a) the reactant molecule graph of the glued ITS is the substrate (same atoms in the same order, same bonds), (b) every element "
+              "count including hydrogen and the total charge agree on both sides when the rule is balanced, and differ by exactly the rule's "
+              "imbalance otherwise, (c) the changed bonds are exactly the images of the rule's bonds with equal order changes, matched atoms carry "
+              "the rule atom's element, hydrogen change and charges, every other bond and atom is untouched; the bond-forming-over-a-bond branch "
+              "adds orders exactly and no ITS is produced iff the sum is not a bond order; the same backwards via _invert_template (sides swapped "
+              "literally, deltas negated); the explicit-hydrogen stage and the hydrogen expansion of the substrate keep all element counts, the "
+              "charge and all bonds between substrate atoms (partial: the validity of VF2 re-matches is a premise). The model is tied to the Python "
+              "code by comparing every intermediate graph (before RDKit serialisation) on corpus, hand-made and synthetic (template, substrate) "
+              "pairs on every run, forward/backward, strategies all/comp/bt, three hydrogen modes.")
+LEVEL_NOTE = ("Trusted: Coq kernel + vm_compute; the hand-written model, the statement vocabulary (proof/C03_Spec.v) and the harness encoders; RDKit "
+              "parsing and VF2 matching are oracle inputs (every mapping used is re-validated by the model's match_okb / match_rcb and the theorems' "
+              "hypotheses are recomputed on every case). Modelled and compared but NOT proved: default-mode rule preparation (_strip_explicit_h), "
+              "re-matching of explicit-hydrogen patterns. Tested only: serialisation through RDKit (_to_smarts) — returned strings are re-parsed "
+              "and compared by the oracle.")
